@@ -74,6 +74,12 @@ def reference(gs, fs, n):
         X, Pp = np.meshgrid(XV, PV, indexing="ij")  # documented: [len(xvec), len(pvec)]
         dx, dp = X - mu[0], Pp - mu[1]
         R[("wigner", m)] = np.exp(-0.5 * (Vi[0, 0] * dx * dx + 2 * Vi[0, 1] * dx * dp + Vi[1, 1] * dp * dp)) / (2 * PI * np.sqrt(np.linalg.det(V)))
+    for S in subsets(n):
+        if S == sorted(S):
+            mu, V = gs.reduced(S)
+            R[("reduced_phase_space", tuple(S))] = np.concatenate([mu, V.ravel()])
+    R[("displacement",)] = np.array([(gs.mu[m] + 1j * gs.mu[m + n]) / 2 for m in range(n)])
+    R[("purity",)] = float(1 / np.sqrt(np.linalg.det(gs.V)))
     nn = np.arange(fs.c)
     for i, j in itertools.permutations(range(n), 2):
         pij = fs.reduced([i, j]).diagonal().real.reshape(fs.c, fs.c)
@@ -160,6 +166,25 @@ def query(st, n, rep):
         put(("fidelity_coherent", al), lambda: float(np.real(st.fidelity_coherent(list(al)))))
     if rep == "gaussian":  # for Fock/bosonic states is_pure reports the representation, not the physical purity
         put(("is_pure",), lambda: bool(st.is_pure))
+        for S in subsets(n):
+            if S == sorted(S):
+                put(("reduced_phase_space", tuple(S)), lambda: (lambda r: np.concatenate([np.asarray(r[0]), np.asarray(r[1]).ravel()]))(st.reduced_gaussian(S)))
+        put(("displacement",), lambda: np.asarray(st.displacement()))
+    if rep == "bosonic":
+        def rb(S):
+            w, m, cv = st.reduced_bosonic(S)
+            if len(w) != 1 or abs(w[0] - 1) > 1e-12:
+                raise RuntimeError("Gaussian state with several weights")
+            k = len(S)
+            ix = [2 * i for i in range(k)] + [2 * i + 1 for i in range(k)]
+            return np.concatenate([np.real(np.asarray(m)[0][ix]), np.real(np.asarray(cv)[0][np.ix_(ix, ix)]).ravel()])
+
+        for S in subsets(n):
+            if S == sorted(S):
+                put(("reduced_phase_space", tuple(S)), lambda: rb(S))
+        put(("displacement",), lambda: np.asarray(st.displacement()))
+    if rep == "bosonic":  # only the bosonic state class has a purity method
+        put(("purity",), lambda: float(np.real(st.purity())))
     for tag, (A, d, k) in polys(n).items():
         put(("poly_quad_mean", tag), lambda: float(np.real(st.poly_quad_expectation(A, d, k)[0])))
     return Q
